@@ -35,10 +35,18 @@ def generate(rng, tier):
                 xs = gen.axis_f(rng, n, "uniform"); flat = [rng.uniform(-3, 3) for _ in range(gen.shape_size(shape))]
                 qs = [rng.uniform(xs[0], xs[-1]) for _ in range(4)]
             ql = rng.choice(["c", "rev", "s2", "rev"])      # the query array's memory layout (stride -1 is contiguous too)
+            oob = rng.random() < 0.3
+            if oob:
+                # a failing call: two different rejected elements; fast and general path must stop at, and name, the same one
+                span = xs[-1] - xs[0]
+                qs = list(qs)
+                qs[0], qs[2] = xs[-1] + span, xs[0] - span * 2
+                if rng.random() < 0.5:
+                    qs[0], qs[1] = qs[1], qs[0]
             for qtag in ("sta", "dyn"):
                 for ent in ("array", "ainto"):
                     e = e_array(S, [len(qs)], qs, qtag=qtag, lay=ql) if ent == "array" else e_ainto(S, [len(qs)], [len(qs)] + shape[1:], qs, qtag=qtag, lay=ql, blay="w")
-                    cases.append({"line": i1_line(S, xs, shape, flat, ("lin", False), e, dtag=rng.choice(["sta", "dyn"])), "meta": {}})
+                    cases.append({"line": i1_line(S, xs, shape, flat, ("lin", False), e, dtag=rng.choice(["sta", "dyn"])), "meta": {"oob": oob}})
         else:
             shape, _, _, xs, ys, flat = c04.gen_grid(rng, S)
             qx, qy = c04.queries2(rng, xs, ys, 4, S)
@@ -56,6 +64,8 @@ def nontrivial(case, res):
 
 
 def oracle(case, res):
+    if case["meta"].get("oob"):
+        return None if res.kind == "oob" else f"a batch with rejected elements must return OutOfBounds, got {res.raw[:80]}"
     return None if res.kind == "ok" else f"in-range batch must be answered, got {res.raw[:80]}"
 
 
@@ -69,6 +79,19 @@ def want_ty(d, smaller):
 def extra(rng, tier):
     out = vlib.run_sub(["casts"])
     fails, n, fast = [], 0, 0
+    # protocol pairs: the same rank-1 query as static Ix1 (fast path) and as IxDyn (general path) must give the same answer,
+    # error answers (which rejected element is named) included
+    import random
+    cs = generate(random.Random(rng.random()), tier)
+    ls = [c["line"] for c in cs]
+    outs = vlib.run_impl_only(ID, ls, tag="pairs")
+    by = {}
+    for l, o in zip(ls, outs):
+        by.setdefault(l.replace(" array sta ", " array Q ").replace(" array dyn ", " array Q ").replace(" ainto sta ", " ainto Q ").replace(" ainto dyn ", " ainto Q "), []).append((l, o))
+    for key, v in by.items():
+        if len(v) >= 2 and len({o for _, o in v}) != 1:
+            fails.append({"line": v[0][0], "impl": " | ".join(o[:100] for _, o in v),
+                          "required": "fast path (static Ix1 query) and general path (IxDyn query) must return identical answers"})
     summary = None
     for l in out:
         if l.startswith("cast "):
